@@ -39,7 +39,7 @@ Fixpoint live_eqb (a b : live) : bool :=
 (* ---------- exploration of the product for each of the 8 flag settings, inside Coq ---------- *)
 Definition tblf (f : nat) := table false f.
 Definition explored_all := Eval vm_compute in
-  map (fun f => explore st_eqb live_eqb (impl_stepI (tblf f)) (spec_step false f) sigma_chars 3000 [(S_WAIT, [], [])] [] [])
+  map (fun f => explore st_eqb live_eqb (impl_stepI (tblf f)) (spec_step false f) sigma_chars (fun _ _ _ => false) 3000 [(S_WAIT, [], [])] [] [])
       (seq 0 8).
 Definition explored (f : nat) := nth f explored_all ([], []).
 Definition Rf (f : nat) : list (state * live) := fst (explored f).
